@@ -16,6 +16,8 @@ RULE = ("exhaustive: every string of length <=5 (quick) / <=7 (thorough, sharded
         "str arguments; LARGE column counts 255..258, 300, 1000, 65537 with words that just fit / just do not fit / are "
         "longer than a line; FmtStr values sharing Chunk objects by identity (f*2, f*3, f+f, join with repeated item/separator, "
         "whole-run slices concatenated; strings <=3) and objects from random public-API programs (common.api_pool); "
+        "over-long words with punctuation / digits / CamelCase (all words <=3 over {a,B,1,-,_,/,.,comma,U+00AD,U+2010,U+2011}; "
+        "every position of each such sign in words of length 4..8 x every columns < length; random); "
         "seeded random strings of length 6..24 with further Unicode whitespace, columns 1..9; tie-only: "
         "columns 0. non-trivial = distinct case with at least one word")
 ASSUMPTIONS = ["columns >= 1 (columns = 0 is a ZeroDivisionError in the library: tie-checked only)",
@@ -115,6 +117,41 @@ def extra_cases(ctx):
         for i in range(pool_size(seed)):
             extra.append(dict(op="linesplit", f=wire.fmt_chunks(pool_object(seed, i)), pool=[seed, i],
                               columns=r.randint(1, 6)))
+    # OVER-LONG WORDS WITH PUNCTUATION: "a word longer than a line is cut into full-length pieces" - wherever hyphens,
+    # underscores, slashes, dots, commas, soft/Unicode hyphens, digits or CamelCase boundaries stand (wrapping heuristics key
+    # on them); judged by reference_wrap like everything else
+    punct = ["-", "_", "/", ".", ",", "\u00ad", "\u2010", "\u2011"]
+    walpha = ["a", "B", "1"] + punct
+    for n in (1, 2, 3):
+        for tup in itertools.product(walpha, repeat=n):
+            w = "".join(tup)
+            for columns in (1, 2):
+                if len(w) > columns:
+                    extra.append(dict(op="linesplit", f=[(w, dict(PA))], columns=columns))
+                    extra.append(dict(op="linesplit_str", f=[(w + " b", {})], columns=columns))
+    for p_ in punct + ["1", "B", "--", "-a-"]:
+        for L in range(4, 10 if ctx.thorough else 9):
+            for i in range(1, L - len(p_)):
+                w = "a" * i + p_ + "b" * (L - i - len(p_))
+                for columns in range(2, L):
+                    for t in (w, "x " + w + " y"):
+                        h = len(t) // 2
+                        extra.append(dict(op="linesplit", f=[(t, dict(PA))], columns=columns))
+                        extra.append(dict(op="linesplit", f=[(t[:h], dict(PB)), (t[h:], dict(PC))], columns=columns))
+    for t, columns in (("heart-eating", 10), ("well-known x", 7), ("home is where the heart-eating mummy is", 10),
+                       ("heartEating", 7), ("abc123def", 4), ("a/b/c/d/e", 3), ("snake_case_name", 6), ("3.14159,2.71828", 5),
+                       ("co\u00adop\u00aderate", 4), ("non\u2010breaking\u2011hyphen", 6)):
+        extra.append(dict(op="linesplit", f=[(t, dict(PA))], columns=columns))
+        extra.append(dict(op="linesplit_str", f=[(t, {})], columns=columns))
+    palpha = ["a", "b", "C", "D", "1", "2"] + punct
+    for _ in range(6000 if ctx.thorough else 1500):
+        words = ["".join(r.choice(palpha) if r.random() < 0.4 else r.choice("abcd") for _ in range(r.randint(1, 14)))
+                 for _ in range(r.randint(1, 4))]
+        s = r.choice(["", " "]) + r.choice([" ", "  ", "\t", "\n"]).join(words)
+        n = len(s)
+        cuts = sorted(r.randint(0, n) for _ in range(r.randint(0, 3)))
+        ch = [(s[i:j], dict(r.choice([PA, PB, PC, PD]))) for i, j in zip([0] + cuts, cuts + [n])]
+        extra.append(dict(op="linesplit", f=ch, columns=r.randint(1, 9)))
     alpha = ["a", "b", "c", "\u00e9", "\uff25"] + MORE_WS
     for _ in range(8000 if ctx.thorough else 2000):
         n = r.randint(6, 24)
